@@ -37,9 +37,11 @@ ASSUMPTIONS = ["symmetric route tables with one common default", "all agents in 
 BUDGET = {"quick": {"workers": 6, "examples": 250, "seconds": 45},
           "thorough": {"workers": 16, "examples": 4000, "seconds": 900}}
 
-AGENTS = ["a1", "a2", "a10", "b", "a_1", "a3"]
+# mixed case: the paths table is a sorted list of (cost, path) and "__hosting__" sorts between upper and lower case
+AGENTS = ["a1", "A2", "a10", "B", "a_1", "Z3"]
 COMPS = ["c1", "c2", "c10", "v_1", "x", "f_12", "y", "c3", "w", "v2", "z", "c11"]
-NUM = st.sampled_from([0, 1, 2, 3, 5, 0.5, 10, 1.5])
+# includes non-dyadic decimals: budgets are added and subtracted along the paths (the code compares with a tolerance)
+NUM = st.sampled_from([0, 1, 2, 3, 5, 0.5, 10, 1.5, 0.1, 0.2, 0.3])
 
 
 @st.composite
@@ -73,11 +75,11 @@ def cases(draw):
                        "default_hosting_cost": draw(NUM),
                        "hosting": draw(st.lists(st.tuples(st.integers(0, 11), NUM), max_size=3)),
                        "routes": {}})
-    default_route = draw(st.sampled_from([1, 1, 2, 0.5, 3]))
+    default_route = draw(st.sampled_from([1, 1, 2, 0.5, 3, 0.2]))
     for i in range(na):
         for j in range(i + 1, na):
             if draw(st.integers(0, 2)) == 0:
-                r = draw(st.sampled_from([0.5, 1, 2, 3, 5, 10]))
+                r = draw(st.sampled_from([0.5, 1, 2, 3, 5, 10, 0.1, 0.2, 0.7]))
                 agents[i]["routes"][str(j)] = r
                 agents[j]["routes"][str(i)] = r
     return {"agents": agents, "owner": owner, "footprints": fps, "edges": sorted(edges), "default_route": default_route,
